@@ -617,6 +617,85 @@ fn io_ret(requested: i32, non_os: bool, e: std::io::Error) -> Ret {
     }
 }
 
+/// A foreign caller's call of integer-result entries: through the vtable getter, with a result slot
+/// it filled beforehand. `Err((untouched, code))`: whether a failed call left the slot as it was,
+/// and the code it returned.
+pub trait RawIntRes: IntRes {
+    fn ir_io_rawslot(&mut self, code: i32, non_os: bool) -> Result<u64, (bool, i32)>;
+    fn ir_vec_rawslot(&mut self, code: i32, n: u32) -> Result<CVec<u64>, (bool, i32)>;
+}
+
+impl RawIntRes for Solo {
+    fn ir_io_rawslot(&mut self, code: i32, non_os: bool) -> Result<u64, (bool, i32)> {
+        // (an OS code survives as it is; any other error is just "not zero")
+        self.ir_io(code, non_os).map_err(|e| (true, if non_os { 1 } else { e.raw_os_error().unwrap_or(1) }))
+    }
+    fn ir_vec_rawslot(&mut self, code: i32, n: u32) -> Result<CVec<u64>, (bool, i32)> {
+        self.ir_vec(code, n).map_err(|_| (true, 1))
+    }
+}
+
+fn prefilled<T>() -> (core::mem::MaybeUninit<T>, usize) {
+    let mut slot = core::mem::MaybeUninit::<T>::uninit();
+    let n = core::mem::size_of::<T>();
+    unsafe { core::ptr::write_bytes(slot.as_mut_ptr() as *mut u8, 0xA5, n) };
+    (slot, n)
+}
+
+fn still_prefilled<T>(slot: &core::mem::MaybeUninit<T>, n: usize) -> bool {
+    (0..n).all(|i| unsafe { (slot.as_ptr() as *const u8).add(i).read() } == 0xA5)
+}
+
+impl<T, C> RawIntRes for IntResBase<'static, T, C>
+where
+    Self: IntRes,
+    T: core::ops::DerefMut<Target = c_void>,
+    C: cglue::trait_group::ContextBounds + 'static,
+{
+    fn ir_io_rawslot(&mut self, code: i32, non_os: bool) -> Result<u64, (bool, i32)> {
+        use cglue::trait_group::{GetContainer, GetVtblBase};
+        let f = self.get_vtbl_base().ir_io();
+        let (mut slot, n) = prefilled::<u64>();
+        let rc = unsafe { f(self.ccont_mut(), code, non_os, &mut slot) };
+        if rc == 0 {
+            Ok(unsafe { slot.assume_init() })
+        } else {
+            Err((still_prefilled(&slot, n), if non_os { 1 } else { rc }))
+        }
+    }
+    fn ir_vec_rawslot(&mut self, code: i32, n: u32) -> Result<CVec<u64>, (bool, i32)> {
+        use cglue::trait_group::{GetContainer, GetVtblBase};
+        let f = self.get_vtbl_base().ir_vec();
+        let (mut slot, sz) = prefilled::<CVec<u64>>();
+        let rc = unsafe { f(self.ccont_mut(), code, n, &mut slot) };
+        if rc == 0 {
+            Ok(unsafe { slot.assume_init() })
+        } else {
+            Err((still_prefilled(&slot, sz), 1))
+        }
+    }
+}
+
+pub const INTRES_SINGLE: [Meth; 12] = [m("ir_io"), m("ir_io_unit"), m("ir_unit_err"), m("ir_fmt"), m("ir_my"), m("ir_vec"), m("ir_plain"), m("ir_alias"), m("ir_one"), m("ir_one_unit"),
+    Meth { name: "ir_io_rawslot", logged_as: "ir_io" }, Meth { name: "ir_vec_rawslot", logged_as: "ir_vec" }];
+
+pub fn call_intres_single<O: RawIntRes + ?Sized>(rv: &mut Recv<O>, mi: usize, a: &mut A) -> Ret {
+    match mi {
+        10 => {
+            let (code, non_os) = (a.i32(0), a.raw(1) == 3);
+            match need_mut!(rv).ir_io_rawslot(code, non_os) {
+                Ok(v) => Ret::Ok_(Box::new(Ret::U(v))),
+                Err((untouched, rc)) => Ret::Err_(Box::new(Ret::Multi(vec![Ret::B(untouched), Ret::I(rc as i64)]))),
+            }
+        }
+        11 => match need_mut!(rv).ir_vec_rawslot(a.i32(0), a.raw(1).rem_euclid(6) as u32) {
+            Ok(v) => Ret::Ok_(Box::new(Ret::V64(v.iter().copied().collect()))),
+            Err((untouched, rc)) => Ret::Err_(Box::new(Ret::Multi(vec![Ret::B(untouched), Ret::I(rc as i64)]))),
+        },
+        _ => call_intres(rv, mi, a),
+    }
+}
+
 pub fn call_intres<O: IntRes + ?Sized>(rv: &mut Recv<O>, mi: usize, a: &mut A) -> Ret {
     match mi {
         0 => {
